@@ -58,7 +58,7 @@ def _infer_annotation_string(context, string, index=None):
         value_set = value_set.filter(
             lambda value: (
                 value.array_type == 'tuple'
-                and len(list(value.py__iter__())) >= index
+                and len(list(value.py__iter__())) > index
             )
         ).py__simple_getitem__(index)
     return value_set
